@@ -335,6 +335,9 @@ func replayRegion(args []string) {
 						if c.tier != "thorough" && (bi2 != idx%len(bsizes) || mi != (idx/2)%2) {
 							continue // quick: one (mode, batch size) per case, rotating
 						}
+						if c.tier == "thorough" && bi2 != (idx+mi+pat)%len(bsizes) {
+							continue // thorough: every tree, both modes, a rotating batch size per (mode, pattern)
+						}
 						o, sh := RunOn(delQ, pairs, RunOpts{Mode: mode, BSize: bs, Cache: true})
 						out.Stats.Evaluations++
 						if o.Phase != "done" {
